@@ -44,6 +44,9 @@ class Ctx:
         self.assert_exn = None    # e.g. "E_Exception": `assert c[, msg]` becomes `if c then <rest> else Raise <assert_exn>`
                                   # (AssertionError is raised exactly when c is false; python -O is not modelled); None: unsupported
         self.int_boolop = False   # True: `a or b` / `a and b` on two integers has Python's VALUE semantics (a if a != 0 else b)
+        self.list_fragment = False  # True: lists of ints (Lib/PyList.v): list displays, len, list(x), l[a:b], truthiness of a list,
+                                    # `a, b = <list>` (ValueError unless 2 long), in-place `l[i] op= e` / `l[i][j] op= e` on a FRESH local
+                                    # list (functional update, IndexError outside), `for i in range(a, b)`; bool/int joins coerce to int
 
 
 def _tname(t):
@@ -71,6 +74,12 @@ class FunTr:
         self.ntmp = 0
         self.lazy = 0       # > 0 while translating an operand that Python evaluates only conditionally
         self.in_loop = 0
+        self.fresh = set()  # local names bound to a list object created in this function (display / list(...)): no alias exists
+        if ctx.list_fragment and any(
+                (isinstance(n, ast.Subscript) and isinstance(n.ctx, ast.Store))
+                or (isinstance(n, ast.Assign) and isinstance(n.targets[0], ast.Tuple) and isinstance(n.value, ast.Subscript)
+                    and isinstance(n.value.slice, ast.Slice)) for n in ast.walk(fn)):
+            self.uses_raise = True
         self.uses_loop = any(isinstance(n, ast.While) for n in ast.walk(fn))
         self.local_funs = {}
         self.fuel_default = fuel_default
@@ -222,6 +231,23 @@ class FunTr:
         if isinstance(e, ast.Tuple):
             parts = [self.expr(x) for x in e.elts]
             return ("(" + ", ".join(p[0] for p in parts) + ")", tuple(p[1] for p in parts))
+        if isinstance(e, ast.List) and c.list_fragment:
+            parts = [self.expr(x) for x in e.elts]
+            if all(t == Z for _, t in parts):
+                return ("[" + "; ".join(s_ for s_, _ in parts) + "]", "list")
+            if parts and all(t == "list" for _, t in parts):
+                return ("[" + "; ".join(s_ for s_, _ in parts) + "]", "list2")
+            self.fail(e, "list display of mixed element types")
+        if isinstance(e, ast.Subscript) and isinstance(e.slice, ast.Slice) and c.list_fragment:
+            base, bt = self.expr(e.value)
+            if bt not in ("list", "list2") or e.slice.step is not None:
+                self.fail(e, "slice of a non-list / with a step")
+            def bound(b):
+                if b is None:
+                    return "None"
+                s_, t_ = self.expr(b)
+                return f"(Some {self.toZ(s_, t_, e)})"
+            return (f"(pslice {base} {bound(e.slice.lower)} {bound(e.slice.upper)})", bt)
         if isinstance(e, ast.Subscript):
             base, bt = self.expr(e.value)
             idx, it = self.expr(e.slice)
@@ -257,11 +283,17 @@ class FunTr:
         self.fail(node, "comparison")
 
     def cond(self, e) -> str:
+        if isinstance(e, ast.BoolOp) and self.ctx.int_boolop:
+            # in a truth context only the truthiness of each operand matters (operands may mix ints, bools, lists)
+            parts = [self.lazily(lambda x=x: self.cond(x), i > 0) for i, x in enumerate(e.values)]
+            return "(" + (" && " if isinstance(e.op, ast.And) else " || ").join(parts) + ")"
         s, t = self.expr(e)
         if t == B:
             return s
         if t == Z:   # truthiness of an int
             return f"(negb ({s} =? 0))"
+        if t in ("list", "list2") and self.ctx.list_fragment:
+            return f"(negb (plen {s} =? 0))"
         self.fail(e, "truthiness of non-scalar")
 
     def toZ(self, s, t, node):
@@ -291,6 +323,10 @@ class FunTr:
                 return (f"(Z.abs {self.toZ(*args[0], e)})", Z)
             if n in ("min", "max") and len(args) == 2:
                 return (f"(Z.{n} {self.toZ(*args[0], e)} {self.toZ(*args[1], e)})", Z)
+            if c.list_fragment and n == "len" and len(args) == 1 and args[0][1] in ("list", "list2"):
+                return (f"(plen {args[0][0]})", Z)
+            if c.list_fragment and n == "list" and len(args) == 1 and args[0][1] == "list":
+                return (args[0][0], "list")     # a copy: equal value (aliasing is excluded by the freshness rule for updates)
             if n == "divmod" and len(args) == 2:
                 a, b = self.toZ(*args[0], e), self.toZ(*args[1], e)
                 return (f"({a} / {b}, {a} mod {b})", (Z, Z))
@@ -353,10 +389,48 @@ class FunTr:
                 if isinstance(n, (ast.Assign, ast.AugAssign, ast.AnnAssign)):
                     tgts = n.targets if isinstance(n, ast.Assign) else [n.target]
                     for t in tgts:
+                        if isinstance(t, ast.Subscript) and self.ctx.list_fragment:
+                            r = self.sub_root(t)
+                            if r is not None and r not in out:
+                                out.append(r)
+                            continue
                         for x in ast.walk(t):
                             if isinstance(x, ast.Name) and x.id not in out:
                                 out.append(x.id)
         return out
+
+    @staticmethod
+    def sub_root(t):
+        while isinstance(t, ast.Subscript):
+            t = t.value
+        return t.id if isinstance(t, ast.Name) else None
+
+    def is_fresh_list(self, val):
+        """val creates a new list object none of whose (list) elements is shared with anything else"""
+        if isinstance(val, ast.List):
+            return all(self.is_fresh_list(x) or self.expr_type(x) == Z for x in val.elts)
+        return isinstance(val, ast.Call) and isinstance(val.func, ast.Name) and val.func.id == "list" and len(val.args) == 1
+
+    def expr_type(self, e):
+        saved = (list(self.pending), self.ntmp)
+        try:
+            return self.expr(e)[1]
+        finally:
+            self.pending, self.ntmp = saved
+
+    def store_sub(self, tgt, val, node):
+        """code of the functional update for the target l[i] / l[i][j] := val -> (root name, option-valued coq expression)"""
+        root = self.sub_root(tgt)
+        if root is None or root not in self.env or root not in self.fresh:
+            self.fail(node, "in-place update of a list that is not a fresh local (it could be aliased)")
+        if isinstance(tgt.value, ast.Name) and self.env[root] == "list":
+            i, it = self.expr(tgt.slice)
+            return root, f"(pset {self.v(root)} {self.toZ(i, it, node)} {val})"
+        if isinstance(tgt.value, ast.Subscript) and isinstance(tgt.value.value, ast.Name) and self.env[root] == "list2":
+            i, it = self.expr(tgt.value.slice)
+            j, jt = self.expr(tgt.slice)
+            return root, f"(pset2 {self.v(root)} {self.toZ(i, it, node)} {self.toZ(j, jt, node)} {val})"
+        self.fail(node, "subscript assignment target")
 
     def read_names(self, stmts):
         out = []
@@ -378,8 +452,16 @@ class FunTr:
         return False
 
     def has_exit(self, stmts):
-        return any(isinstance(n, (ast.Return, ast.Raise, ast.Break, ast.Assert)) or self.raising_call(n)
+        return any(isinstance(n, (ast.Return, ast.Raise, ast.Break, ast.Assert)) or self.raising_call(n) or self.list_leaves(n)
                    for s in stmts for n in ast.walk(s))
+
+    def list_leaves(self, n):
+        """list-fragment statements that can raise (IndexError / ValueError) or are translated as a recursive function"""
+        if not self.ctx.list_fragment:
+            return False
+        return (isinstance(n, ast.For) or (isinstance(n, ast.Subscript) and isinstance(n.ctx, ast.Store))
+                or (isinstance(n, ast.Assign) and isinstance(n.targets[0], ast.Tuple) and isinstance(n.value, ast.Subscript)
+                    and isinstance(n.value.slice, ast.Slice)))
 
     def branch(self, test, kt, kf):
         """`if test then kt() else kf()` where test may call raising callees in positions Python evaluates conditionally:
@@ -478,6 +560,15 @@ class FunTr:
                 kind = s.exc.id
             return f"Raise E_{kind}"
         if isinstance(s, (ast.Assign, ast.AnnAssign)):
+            if isinstance(s, ast.Assign) and len(s.targets) > 1 and self.ctx.list_fragment \
+                    and all(isinstance(t_, ast.Name) for t_ in s.targets):
+                # a = b = e: e is evaluated once, then bound to the targets from left to right
+                first = ast.copy_location(ast.Assign(targets=[s.targets[0]], value=s.value), s)
+                others = [ast.copy_location(ast.Assign(targets=[t_], value=ast.Name(id=s.targets[0].id, ctx=ast.Load())), s)
+                          for t_ in s.targets[1:]]
+                if self.is_fresh_list(s.value):
+                    self.fail(s, "several names bound to one new list")
+                return self.block([first] + others + rest, k)
             if isinstance(s, ast.Assign):
                 if len(s.targets) != 1:
                     self.fail(s, "multiple targets")
@@ -490,6 +581,30 @@ class FunTr:
             else:
                 e, t = self.expr(val)
             pend = self.take()
+            if self.ctx.list_fragment and isinstance(tgt, ast.Name):
+                if self.is_fresh_list(val):
+                    self.fresh.add(tgt.id)
+                else:
+                    self.fresh.discard(tgt.id)
+            if self.ctx.list_fragment and isinstance(tgt, ast.Subscript):
+                # l[i] = e / l[i][j] = e on a fresh local list: functional update, IndexError outside the list
+                if self.monad != "result":
+                    self.fail(s, "subscript assignment in a function that is not in the result monad")
+                root, upd = self.store_sub(tgt, self.toZ(e, t, s), s)
+                return self.wrap(pend, f"match {upd} with\n  | None => Raise E_IndexError\n  | Some {self.v(root)} =>\n  "
+                                 + self.block(rest, k) + "\n  end")
+            if self.ctx.list_fragment and isinstance(tgt, ast.Tuple) and t == "list" and all(isinstance(x, ast.Name) for x in tgt.elts):
+                # a, b = <list>: ValueError unless the list has exactly that many elements
+                if self.monad != "result":
+                    self.fail(s, "sequence unpacking in a function that is not in the result monad")
+                names = [x.id for x in tgt.elts]
+                for n_ in names:
+                    self.env[n_] = Z
+                    self.fresh.discard(n_)
+                pat = "; ".join(f"t_{n_}" for n_ in names)
+                binds = "".join(f"let {self.v(n_)} := t_{n_} in " for n_ in names)
+                return self.wrap(pend, f"match {e} with\n  | [{pat}] => {binds}\n  " + self.block(rest, k)
+                                 + "\n  | _ => Raise E_ValueError\n  end")
             if isinstance(t, tuple) and len(t) == 2 and t[0] == "result" and isinstance(tgt, ast.Name):
                 if self.monad != "result":
                     self.fail(s, "raising primitive in a function without raise")
@@ -508,6 +623,19 @@ class FunTr:
                 binds = "".join(f"let {self.v(n_)} := {tm} in " for n_, tm in zip(names, tmp))
                 return self.wrap(pend, f"let '({pat}) := {e} in {binds}\n  " + self.block(rest, k))
             self.fail(s, "assignment target")
+        if isinstance(s, ast.AugAssign) and isinstance(s.target, ast.Subscript) and self.ctx.list_fragment:
+            # l[i] op= e: read l[i] (IndexError outside), combine, store back
+            if self.monad != "result":
+                self.fail(s, "subscript assignment in a function that is not in the result monad")
+            load = ast.Subscript(value=s.target.value, slice=s.target.slice, ctx=ast.Load())
+            fake = ast.copy_location(ast.BinOp(left=ast.copy_location(load, s), op=s.op, right=s.value), s)
+            e, t = self.expr(fake)
+            pend = self.take()
+            root, upd = self.store_sub(s.target, self.toZ(e, t, s), s)
+            return self.wrap(pend, f"match {upd} with\n  | None => Raise E_IndexError\n  | Some {self.v(root)} =>\n  "
+                             + self.block(rest, k) + "\n  end")
+        if isinstance(s, ast.For) and self.ctx.list_fragment:
+            return self.for_range(s, rest, k)
         if isinstance(s, ast.AugAssign):
             if not isinstance(s.target, ast.Name):
                 self.fail(s, "augmented target")
@@ -531,7 +659,10 @@ class FunTr:
                 # variable typing after the if: union (types must agree)
                 for n_, ty in env_a.items():
                     if n_ in self.env and self.env[n_] != ty:
-                        self.fail(s, f"variable {n_} has different types in branches")
+                        # (list fragment: the continuation was translated separately inside each branch with that branch's own
+                        #  typing, e.g. `fold = 0` / `fold = a > b`; nothing is translated after this point with the joined typing)
+                        if not (self.ctx.list_fragment and {self.env[n_], ty} == {Z, B}):
+                            self.fail(s, f"variable {n_} has different types in branches")
                     self.env.setdefault(n_, ty)
                 return self.wrap(pend, f"if {c} then (\n  {a})\n  else (\n  {b})")
             # pure join: both branches only assign
@@ -560,6 +691,55 @@ class FunTr:
         if isinstance(s, ast.While):
             return self.loop(s, rest, k)
         self.fail(s, "statement")
+
+    def for_range(self, s: ast.For, rest, k):
+        """for i in range([a,] b): body  ->  a function recursive on the iteration count max(0, b - a) (range is evaluated once);
+        body: assignments / ifs / in-place list updates only (no return, break, continue, nested loop; i is not assigned)."""
+        it = s.iter
+        if s.orelse or not isinstance(s.target, ast.Name) or not (isinstance(it, ast.Call) and isinstance(it.func, ast.Name)
+                                                                   and it.func.id == "range" and not it.keywords
+                                                                   and len(it.args) in (1, 2)):
+            self.fail(s, "for loop that is not `for <name> in range(a, b)`")
+        if self.monad != "result":
+            self.fail(s, "for loop in a function that is not in the result monad")
+        if any(isinstance(n, (ast.Return, ast.Break, ast.Continue, ast.While, ast.For, ast.FunctionDef))
+               for x in s.body for n in ast.walk(x)):
+            self.fail(s, "return/break/continue/nested loop inside a for loop")
+        ivar = s.target.id
+        if ivar in self.env or ivar in self.assigned(s.body):
+            self.fail(s, "the loop variable is assigned elsewhere")
+        if len(it.args) == 1:
+            lo = "0"
+        else:
+            lo_s, lo_t = self.expr(it.args[0])
+            lo = self.toZ(lo_s, lo_t, s)
+        hi_s, hi_t = self.expr(it.args[-1])
+        hi = self.toZ(hi_s, hi_t, s)
+        pend = self.take()
+        self.nloop += 1
+        lname = f"{self.name}_for{self.nloop}"
+        carried = [n for n in self.assigned(s.body) if n in self.env]
+        if not carried:
+            self.fail(s, "loop carries no variable")
+        reads = [n for n in self.read_names(s.body) if n in self.env and n not in carried]
+        env0 = dict(self.env)
+        fresh0 = set(self.fresh)
+        self.env[ivar] = Z
+        args = " ".join(self.v(n_) for n_ in reads + carried)
+        tup = "(" + ", ".join(self.v(n_) for n_ in carried) + ")" if len(carried) > 1 else self.v(carried[0])
+        body = self.block(s.body, lambda: f"{lname} fuel' ({self.v(ivar)} + 1) {args}")
+        for n_ in carried:
+            if self.env.get(n_) != env0[n_]:
+                self.fail(s, f"loop changes the type of {n_}")
+        self.env = env0
+        self.fresh = fresh0
+        sig = " ".join(f"({self.v(n_)} : {_tname(env0[n_])})" for n_ in reads + carried)
+        rty = " * ".join(_tname(env0[n_]) for n_ in carried)
+        self.loops.append(
+            f"Fixpoint {lname} (fuel : nat) ({self.v(ivar)} : Z) {sig} {{struct fuel}} : result ({rty}) :=\n"
+            f"  match fuel with\n  | O => Ok {tup}\n  | S fuel' =>\n  {body}\n  end.\n")
+        return self.wrap(pend, f"match {lname} (Z.to_nat ({hi} - {lo})) {lo} {args} with\n  | Raise exn_ => Raise exn_\n"
+                               f"  | Ok {tup} =>\n  " + self.block(rest, k) + "\n  end")
 
     def note_ret(self, t, node):
         if self.rettype is None:
@@ -661,6 +841,8 @@ class FunTr:
             raise Unsupported(f"{fn.name}: varargs")
         body = self.block(fn.body, None)
         rt = _tname(self.rettype) if self.rettype else "unit"
+        if " " in rt and not rt.startswith("("):     # "list Z", "list (list Z)" as the argument of result/option
+            rt = f"({rt})" if self.monad else rt
         if self.monad == "result":
             rts = f"result {rt}"
         elif self.monad == "option":
